@@ -12,7 +12,7 @@ Case shape (self-contained, JSON):
      | ["repeat", E, k] | ["power", E, k] | ["choice", [[E, [m, e]], ...], limit|null]
      | ["cond", pred, E, E] | ["until", E, n]            pred := ["lenGt", k] | ["always"] | ["never"]
   prims in the Lean model: mutUniform mutSwap selRandom selSample selTop selBottom selFirst selLast
-     recUniform recSample recKPoint recSegmented recOrder recAverage recWeightedAverage; oracle-only prims (run on the real code, property
+     recUniform recSample recKPoint recSegmented recOrder recAverage recWeightedAverage selProportional; oracle-only prims (run on the real code, property
      oracle only, no model prediction): see ORACLE_ONLY.
 
 Recorded-oracle technique: every `random.Random` owned by an operator of the expression is replaced
@@ -29,9 +29,9 @@ from harness.common.framework import Prop
 
 MODEL_PRIMS = ['mutUniform', 'mutSwap', 'selRandom', 'selSample', 'selTop', 'selBottom', 'selFirst',
                'selLast', 'recUniform', 'recSample', 'recKPoint', 'recSegmented', 'recOrder', 'recAverage',
-               'recWeightedAverage']
+               'recWeightedAverage', 'selProportional']
 ORACLE_ONLY = ['recPartiallyMapped', 'recCycle',
-               'selProportional', 'selTopCluster', 'selBottomCluster', 'nsga2SortPipeline',
+               'selTopCluster', 'selBottomCluster', 'nsga2SortPipeline',
                'lambdaDrop1', 'lambdaReverse', 'forEachFlatten']
 SELECTORS = {'Random', 'Sample', 'Proportional', 'Top', 'Bottom', 'First', 'Last'}
 
@@ -158,6 +158,23 @@ def spec_stats(spec):
   return st
 
 
+WEIGHT_POOL = [[0, 0], [0, 0], [1, 0], [1, 0], [1, 0], [2, 0], [1, 6], [1, 3], [5, 2], [3, 1],
+               ratio(0.1), ratio(0.02), ratio(0.7), [7, 0]]
+
+
+def gen_weights(rng):
+  """Weights for Proportional (applied cyclically to the inputs): tiny, zero, equal and ordinary ones."""
+  k = rng.below(6)
+  n = rng.randint(1, 7)
+  if k == 0:
+    return [rng.choice([[1, 0], [1, 0], [5, 2]])] * n                   # all equal
+  if k == 1:
+    return rng.shuffle([rng.choice([ratio(0.1), ratio(0.02), [1, 6]])] + [[1, 0]] * (n - 1))   # one tiny among equals
+  if k == 2:
+    return rng.shuffle([[0, 0]] * rng.randint(1, 2) + [rng.choice(WEIGHT_POOL) for _ in range(n)])
+  return [rng.choice(WEIGHT_POOL) for _ in range(n)]
+
+
 class ExprGen:
   """Operator expressions from the combinator grammar (depth <= 4), mostly well-typed:
   `fit` tracks whether every element still carries a reward (Top/Bottom need it), segment-wise
@@ -177,12 +194,14 @@ class ExprGen:
 
   def selector(self, fit):
     r = self.rng
-    names = ['selRandom', 'selRandom', 'selSample', 'selFirst', 'selLast']
+    names = ['selRandom', 'selRandom', 'selSample', 'selFirst', 'selLast', 'selProportional']
     if fit or self.sloppy:
       names += ['selTop', 'selTop', 'selBottom']
     n = r.choice(names)
     if n == 'selRandom':
       return ['prim', n, self.nspec(), r.chance(0.35)]
+    if n == 'selProportional':
+      return ['prim', n, self.nspec(), gen_weights(r)]
     return ['prim', n, self.nspec()]
 
   def two_parents(self, fit):
@@ -234,10 +253,10 @@ class ExprGen:
     if k == 'leaf':
       return self.expr(0, fit)
     if k == 'oo':
-      n = r.choice(['selProportional', 'selTopCluster', 'selBottomCluster', 'nsga2SortPipeline',
+      n = r.choice(['selTopCluster', 'selBottomCluster', 'nsga2SortPipeline',
                     'lambdaDrop1', 'lambdaReverse', 'forEachFlatten'])
-      if n in ('selTopCluster', 'selBottomCluster', 'selProportional'):
-        if not fit and n != 'selProportional':
+      if n in ('selTopCluster', 'selBottomCluster'):
+        if not fit:
           return ['prim', 'selFirst', 2], fit
         return ['prim', n, self.nspec()], fit
       if n.startswith('nsga2') and not fit:
@@ -309,6 +328,15 @@ def expr_prims(e, acc=None):
       if isinstance(x, list) and x and isinstance(x[0], str) and x[0] in EXPR_HEADS:
         expr_prims(x, acc)
   return acc
+
+
+def has_inexact_weights(e):
+  """Proportional computes `int(n * w / sum + 0.5)` in floating point; the model computes it exactly.
+  With weights such as 0.7 an exact tie (x.5) is missed by the float computation, so expressions with
+  weights that are not small dyadic numbers have no model part (the count law is still checked)."""
+  if e[0] == 'prim':
+    return e[1] == 'selProportional' and any(q[1] > 8 for q in e[3])
+  return any(has_inexact_weights(x) for x in sub_exprs(e))
 
 
 EXPR_HEADS = {'prim', 'identity', 'seq', 'concat', 'union', 'inter', 'diff', 'symdiff', 'inv', 'slice',
@@ -580,7 +608,8 @@ class C14(Prop):
         from pyglove.ext.evolution import where
         return cls(where=where.Any(), seed=seed())
       if name == 'selProportional':
-        return selectors.Proportional(nval(e[2]), weights=weights)
+        ws = [unratio(q) for q in e[3]]
+        return selectors.Proportional(nval(e[2]), weights=lambda xs: [ws[i % len(ws)] for i in range(len(xs))])
       if name == 'selTopCluster':
         return selectors.Top(nval(e[2]), cluster=True)
       if name == 'selBottomCluster':
@@ -988,7 +1017,7 @@ class C14(Prop):
   def model_request_with_impl(self, case, out):
     """The oracle stream fed to the model is the PRNG log recorded by the implementation run."""
     prims = expr_prims(case['expr'])
-    if any(p not in MODEL_PRIMS for p in prims):
+    if any(p not in MODEL_PRIMS for p in prims) or has_inexact_weights(case['expr']):
       return None
     pop = []
     for ind in case['pop']:
@@ -1102,7 +1131,7 @@ class C14(Prop):
     for p in sorted(set(expr_heads(case['expr']))):
       if p != 'prim':
         h.append('comb:' + p)
-    if out.get('model') is None:
+    if out.get('model') is None or has_inexact_weights(case['expr']):
       h.append('oracle-only(no model part)')
     if out.get('tainted'):
       h.append('tainted-by-F21')
@@ -1230,6 +1259,9 @@ FIXED_PRIMS = [['prim', 'mutUniform'], ['prim', 'mutSwap'], ['prim', 'recUniform
                ['prim', 'selRandom', 2, False], ['prim', 'selRandom', 3, True], ['prim', 'selSample', 2],
                ['prim', 'selTop', 1], ['prim', 'selBottom', ['frac', 1, 1]], ['prim', 'selFirst', 1],
                ['prim', 'selLast', 1], ['power', ['prim', 'mutUniform'], 3],
+               ['prim', 'selProportional', 2, [ratio(0.1), [1, 0], [1, 0], [1, 0]]],
+               ['prim', 'selProportional', ['frac', 1, 1], [[1, 0], ratio(0.02), [1, 0], [0, 0]]],
+               ['prim', 'selProportional', 3, [[1, 0], [1, 0], [1, 0]]],
                ['seq', ['prim', 'mutSwap'], ['prim', 'mutUniform']]]
 
 PROP = C14()
